@@ -137,7 +137,7 @@ inductive Op
   | sign (q : Req)                -- SignVote / SignProposal
   | crash                         -- process dies, restart reloads the file
   | failsave (on : Bool)          -- environment toggles
-  | cut (c : Cut) (q : Req)       -- SignVote / SignProposal in a process killed inside WriteFileAtomic
+  | cut (c : Cut) (q : Req)       -- restart; SignVote / SignProposal in that process, killed inside WriteFileAtomic; restart
 deriving DecidableEq, Repr
 
 inductive Out (σ : Type)
@@ -204,10 +204,12 @@ def step {σ : Type} (sign : SignBytes → σ) (s : State σ) : Op → State σ 
   | .crash => (restart s, .ok)
   | .failsave on => ({ s with failing := on }, .ok)
   | .cut c q =>
+    -- a NEW process (it loads the file: `restart s`) serves this one request and is
+    -- killed inside WriteFileAtomic (or exits after answering); then the next process starts
     if s.failing then (s, .unsupported)
     else
-      let r := signReq sign (match c with | .old => .killedOld | .new => .killedNew) s q
-      (restart r.1, r.2)   -- the process that served the request is gone either way
+      let r := signReq sign (match c with | .old => .killedOld | .new => .killedNew) (restart s) q
+      (restart r.1, r.2)
 
 def run {σ : Type} (sign : SignBytes → σ) (s : State σ) : List Op → State σ
   | [] => s
@@ -244,7 +246,7 @@ def stepWrong {σ : Type} (sign : SignBytes → σ) (s : State σ) : Op → Stat
   | .cut c q =>
     if s.failing then (s, .unsupported)
     else
-      let r := signReqWrong sign (match c with | .old => .killedOld | .new => .killedNew) s q
+      let r := signReqWrong sign (match c with | .old => .killedOld | .new => .killedNew) (restart s) q
       (restart r.1, r.2)
   | op => step sign s op
 
